@@ -166,7 +166,8 @@ int main(int argc, char** argv)
     const auto args  = parse_args(argc, argv);
     const auto stage = args.stage.empty() ? "linear" : args.stage;
     report_t   r("c09/" + stage, args);
-    const bool T = args.thorough();
+    const bool T     = args.thorough();
+    const bool small = args.get("small", "0") == "1";
 
     const std::vector<int> Ns(T ? std::begin(NS_THOROUGH) : std::begin(NS_QUICK), T ? std::end(NS_THOROUGH) : std::end(NS_QUICK));
     const std::vector<int> threads(T ? std::begin(THREADS_T) : std::begin(THREADS_Q), T ? std::end(THREADS_T) : std::end(THREADS_Q));
@@ -194,6 +195,10 @@ int main(int argc, char** argv)
         o.mask    = static_cast<int>(d[2]);
         o.target  = static_cast<int>(d[3]);
         o.threads = threads[d[4]];
+        if (small && !(o.N == Ns.back() && o.threads > 1 && (o.mask == 0 || o.mask == 3)))
+        {
+            return; // race-detector variant: a thin sub-lattice with several threads and several chunks
+        }
         std::fprintf(stderr, "CASE %s:%llu\n", stage.c_str(), static_cast<unsigned long long>(index));
         std::fflush(stderr);
         const auto source  = make_source(o);
@@ -210,7 +215,7 @@ int main(int argc, char** argv)
         {
             r.sample(desc("all inner configurations"));
         }
-        const std::vector<tensor_size_t> batches = {1, 2, 3, o.N, o.N + 1, 10000};
+        const std::vector<tensor_size_t> batches = small ? std::vector<tensor_size_t>{1, 2} : std::vector<tensor_size_t>{1, 2, 3, o.N, o.N + 1, 10000};
 
         if (stage == "linear")
         {
